@@ -242,9 +242,14 @@ func runC20(c *Ctx) {
 				c.requireGuard("R6-412-never-success", acq, Site{ret, "success return"}, cmpFact(vIs(werr), token.EQL, vNil(), "writeLease err == nil"))
 			}
 			stored := false
-			for _, st := range storesToField(acq, "Lease.ETag") {
+			for _, st := range storesToFieldDeep(acq, "Lease.ETag") {
 				if vIs(resultOf(w, 0))(st.Val) {
 					stored = true
+				}
+				for _, o := range origins(st.Val) {
+					if o == resultOf(w, 0) {
+						stored = true
+					}
 				}
 			}
 			c.check(stored, "R4-token-from-same-read", fnName(acq)+": returned lease carries the ETag of its own write", c.pos(w), "newLease.ETag = writeLease result", "the holder would renew/release with a stale ETag")
